@@ -17,6 +17,7 @@
 // nested on the spot when the cache lock is free there, released on their own goroutines when it is held) and
 // the third phase of TestConcurrentStress (readers released inside a cleanup over >= 3 expired files).
 // rollup_pending_test.go: TestPendingRollupFiles, files of pending rollups (two target intervals) survive.
+// two_step_close_test.go: Snapshot.Close in its two halves (closeBegin/closeEnd) as history operations.
 package c02
 
 import (
@@ -106,7 +107,8 @@ type env struct {
 	helpers       atomic.Int32   // racing readers running on their own goroutines (hooks called by them must not touch env)
 	cleanup       *cleanupRun    // the cache cleanup started by opCacheCleanup which is running now
 	lastCleanup   *cleanupRun
-	noRace        bool // no further racing readers (the history is finishing: every cleanup would add snapshots)
+	closing       []*closingSnap // snapshots between the two halves of their Close (two_step_close_test.go)
+	noRace        bool           // no further racing readers (the history is finishing: every cleanup would add snapshots)
 	racedCleanups int
 }
 
@@ -415,7 +417,15 @@ func (e *env) nested(where string) {
 	e.nestBudg--
 	n := rapid.IntRange(0, 2).Draw(e.t, "nestedOps")
 	for i := 0; i < n; i++ {
-		switch rapid.IntRange(0, 3).Draw(e.t, "nestedKind") {
+		switch rapid.IntRange(0, 5).Draw(e.t, "nestedKind") {
+		case 4:
+			if len(e.held) > 0 {
+				e.opCloseBegin(rapid.IntRange(0, len(e.held)-1).Draw(e.t, "nestedSnap"), "nested@"+where)
+			}
+		case 5:
+			if len(e.closing) > 0 {
+				e.opCloseEnd(rapid.IntRange(0, len(e.closing)-1).Draw(e.t, "nestedClosing"), "nested@"+where)
+			}
 		case 0:
 			e.opTakeSnapshot("nested@" + where)
 		case 1, 2:
@@ -475,6 +485,7 @@ func (e *env) opFlush() {
 	for _, k := range keys {
 		e.model[fam].AddAtom(k, atom)
 	}
+	e.noteBetween(fam, true, false, false)
 	for _, h := range e.held {
 		if h.fam == fam {
 			h.flushes++
@@ -522,6 +533,7 @@ func (e *env) opFinishWriter() {
 	for _, k := range e.pendingKs {
 		e.model[e.pendingFm].AddAtom(k, e.pendingAt)
 	}
+	e.noteBetween(e.pendingFm, true, false, false)
 	for _, h := range e.held {
 		if h.fam == e.pendingFm {
 			h.flushes++
@@ -554,6 +566,7 @@ func (e *env) opCompact() {
 	}
 	if ran {
 		e.classes["compaction-ran"]++
+		e.noteBetween(fam, true, true, false)
 		for _, h := range e.held {
 			if h.fam == fam {
 				h.compacts++
@@ -567,6 +580,7 @@ func (e *env) opDeleteObsolete() {
 	fam := e.pickFamily()
 	e.logf("deleteObsolete %s", fam)
 	e.runJob("deleteObsolete", func() { kv.VerifDeleteObsoleteFiles(e.fams[fam]) })
+	e.noteBetween(fam, false, true, false)
 	for _, h := range e.held {
 		if h.fam == fam {
 			h.cleanups++
@@ -596,6 +610,7 @@ func (e *env) opCacheCleanup() {
 	for _, h := range e.held {
 		h.cleanups++
 	}
+	e.noteBetween("", false, false, true)
 	e.classes["cache-cleanup"]++
 }
 
@@ -614,6 +629,11 @@ func (e *env) takeSnapshotOf(fam, why string) *heldSnap {
 		h.files[fm.GetFileNumber().Int64()] = true
 	}
 	e.held = append(e.held, h)
+	for _, c := range e.closing {
+		if c.v == snap.GetCurrent() {
+			c.retained++
+		}
+	}
 	e.logf("snapshot #%d of %s (%s) files=%v", h.id, fam, why, keysOfInt(h.files))
 	return h
 }
@@ -787,6 +807,7 @@ func (e *env) opReopen() {
 	for len(e.held) > 0 {
 		e.opCloseSnapshot(0, "before reopen")
 	}
+	e.finishClosing("before reopen")
 	e.logf("reopen")
 	if err := kv.GetStoreManager().CloseStore(e.storePath); err != nil {
 		e.fatalf("close: %v", err)
@@ -921,6 +942,12 @@ func TestSnapshotStability(t *testing.T) {
 				h.snap.Close()
 			}
 			e.held = nil
+			for _, c := range e.closing {
+				c.second()
+				c.v.Retain()
+				c.h.snap.Close()
+			}
+			e.closing = nil
 			if c := e.lastCleanup; c != nil {
 				c.wg.Wait()
 				for _, r := range c.plan {
@@ -958,6 +985,20 @@ func TestSnapshotStability(t *testing.T) {
 				}
 				e.opCloseSnapshot(rapid.IntRange(0, len(e.held)-1).Draw(t, "snap"), "top")
 			},
+			"closeBegin": func(t *rapid.T) {
+				e.t = t
+				if len(e.held) == 0 || len(e.closing) >= maxClosing {
+					t.Skip("no snapshot / enough closing")
+				}
+				e.opCloseBegin(rapid.IntRange(0, len(e.held)-1).Draw(t, "snap"), "top")
+			},
+			"closeEnd": func(t *rapid.T) {
+				e.t = t
+				if len(e.closing) == 0 {
+					t.Skip("no snapshot is closing")
+				}
+				e.opCloseEnd(rapid.IntRange(0, len(e.closing)-1).Draw(t, "closing"), "top")
+			},
 			"reopen": func(t *rapid.T) {
 				e.t = t
 				if rapid.IntRange(0, 3).Draw(t, "reopenGate") != 0 {
@@ -968,6 +1009,7 @@ func TestSnapshotStability(t *testing.T) {
 			"": func(t *rapid.T) {
 				e.t = t
 				e.checkCurrent(rapid.SampledFrom([]int{0, 1, 1, 2, 2, 2}).Draw(t, "checkCurrentMode"))
+				e.checkActive("after step")
 			},
 		})
 		e.t = t
@@ -976,6 +1018,14 @@ func TestSnapshotStability(t *testing.T) {
 		// before the first and after each of them
 		e.opCacheCleanup()
 		e.noRace = true
+		// the closes in progress finish; an obsolete-file pass per family shows what they did to the held snapshots
+		if len(e.closing) > 0 {
+			e.finishClosing("final")
+			for _, n := range e.famNames {
+				e.runJob("deleteObsolete", func() { kv.VerifDeleteObsoleteFiles(e.fams[n]) })
+			}
+			e.checkActive("final")
+		}
 		for len(e.held) > 0 {
 			h := e.held[rapid.IntRange(0, len(e.held)-1).Draw(t, "finalClose")]
 			if e.pointOnly {
@@ -1091,16 +1141,7 @@ func TestConcurrentStress(t *testing.T) {
 		}
 		done := make(chan struct{})
 		var wg sync.WaitGroup
-		var snapsChecked, snapsAcross, knownStale atomic.Int64
-		// known finding (see regression_test.go): while it is listed, a held snapshot whose files were deleted
-		// because a stale Release dropped its version is counted, not reported
-		isKnownStale := func(err error) bool {
-			if ev.Known(sigStaleRelease) && strings.Contains(err.Error(), "no such file or directory") {
-				knownStale.Add(1)
-				return true
-			}
-			return false
-		}
+		var snapsChecked, snapsAcross atomic.Int64
 		wg.Add(1)
 		go func() { // writer
 			defer wg.Done()
@@ -1153,11 +1194,8 @@ func TestConcurrentStress(t *testing.T) {
 					hi := started.Load()
 					first, err := kvsim.ReadSnapshot(snap, probe)
 					if err != nil {
-						snap.Close()
-						if isKnownStale(err) {
-							continue
-						}
 						fail("snapshot read: %v", err)
+						snap.Close()
 						return
 					}
 					m, ok := prefixOf(first)
@@ -1171,9 +1209,7 @@ func TestConcurrentStress(t *testing.T) {
 					for j := 0; j < 3; j++ {
 						again, err := kvsim.ReadSnapshot(snap, probe)
 						if err != nil {
-							if !isKnownStale(err) {
-								fail("re-read of held snapshot (commits 1..%d): %v", m, err)
-							}
+							fail("re-read of held snapshot (commits 1..%d): %v", m, err)
 							break
 						}
 						if !first.Equal(again) {
@@ -1203,9 +1239,6 @@ func TestConcurrentStress(t *testing.T) {
 			map[string]any{"round": round, "flushes": flushes, "snapshots_checked": snapsChecked.Load(), "snapshots_held_across_commit": snapsAcross.Load()})
 		ev.Class("TestConcurrentStress", "snapshots-checked", int(snapsChecked.Load()))
 		ev.Class("TestConcurrentStress", "snapshots-held-across-commit", int(snapsAcross.Load()))
-		if n := knownStale.Load(); n > 0 {
-			ev.Class("TestConcurrentStress", "excluded_known", int(n))
-		}
 		if failure != "" {
 			t.Fatalf("round %d (maxFileSize %d): %s", round, []uint32{0, 16, 64}[round%3], failure)
 		}
